@@ -71,7 +71,7 @@ let same what (c : rnum) (r : rnum) =
   if not (rv_eqb chain c r) then
     fail "%s: implementation gives %s, exact value is %s" what (string_of_rnum c) (string_of_rnum r)
 let sgi x = sgn_of_z x
-let gcdf p q = ppp (pgcd p q)
+let gcdf = an_ref_gcd   (* the instance for which C07_cmp_full is proved *)
 
 (* exact-model comparison of struct texts *)
 let exact what (model : anum) (ctok : string) =
@@ -150,7 +150,10 @@ let run_case (toks : string list) (cout : string list) : string =
       let cf = Array.of_list (split_on ct ';') in
       let op = f.(0) in
       let ai k = int_of_string f.(k) in
-      let operand_is what tok i = same (what ^ ": operand struct before the call") (check_struct tok) (get i) in
+      (* the library's current struct of slot i must still denote the slot's number; the pool then follows the
+         library's representation (collapsed points, reduced polynomials), so that both sides work on the same degrees *)
+      let sync what tok i = let c = check_struct tok in same what c (get i); pool.(i) <- Some c in
+      let operand_is what tok i = sync (what ^ ": operand struct before the call") tok i in
       if ct = "UNKNOWN-STEP" then fail "harness protocol: %s" ct;
       if ct = "badslot" then begin
         (* the harness refused the step because an operand slot was never filled (its producer was skipped / undefined):
@@ -170,8 +173,11 @@ let run_case (toks : string list) (cout : string list) : string =
           if op = "div" && sgi (rn_sgn y) = 0 then fail "division by an exact zero was not detected (sgn wrong)";
           let r = some (match op with
             | "add" -> rv_add chain fuel x y | "sub" -> rv_sub chain fuel x y | "mul" -> rv_mul chain fuel x y | _ -> rv_div chain fuel x y) in
-          let c = check_struct ct in
-          same op c r; pool.(k) <- Some c
+          let c = check_struct cf.(0) in
+          same op c r;
+          if ai 2 <> k then sync (op ^ ": first operand after") cf.(1) (ai 2);
+          if ai 3 <> k then sync (op ^ ": second operand after") cf.(2) (ai 3);
+          pool.(k) <- Some c
         end
       | "neg" ->
         let k = ai 1 and i = ai 2 in
@@ -189,14 +195,19 @@ let run_case (toks : string list) (cout : string list) : string =
           operand_is op cf.(0) i;
           let c = check_struct cf.(1) in
           same op c (some (rv_inv fuel x));
-          (match an_inv fuel (anum_of_token cf.(0)) with Some (m, _) -> exact "inv" m cf.(1) | None -> raise Fuel);
+          (match an_inv fuel (anum_of_token cf.(0)) with
+           | Some (m, a') -> exact "inv" m cf.(1); if i <> k then exact "inv (operand after)" a' cf.(2)
+           | None -> raise Fuel);
+          if i <> k then sync "inv: operand after" cf.(2) i;
           pool.(k) <- Some c
         end
       | "pow" ->
         let k = ai 1 and x = get (ai 2) and e = ai 3 in
         if ct = "skip" then () else begin
-          let c = check_struct ct in
-          same op c (some (rv_pow chain fuel x (nat_of_int e))); pool.(k) <- Some c
+          let c = check_struct cf.(0) in
+          same op c (some (rv_pow chain fuel x (nat_of_int e)));
+          if ai 2 <> k then sync "pow: operand after" cf.(1) (ai 2);
+          pool.(k) <- Some c
         end
       | "root" ->
         let k = ai 1 and x = get (ai 2) and e = ai 3 in
@@ -204,9 +215,10 @@ let run_case (toks : string list) (cout : string list) : string =
         else if ct = "undef" then (if not (e = 0 || sgi (rn_sgn x) < 0) then fail "implementation says the operand is negative, it is not")
         else begin
           if sgi (rn_sgn x) < 0 then fail "root of a negative number was not detected (sgn wrong)";
-          let c = check_struct ct in
+          let c = check_struct cf.(0) in
           if sgi (rn_sgn c) < 0 then fail "positive_root returned a negative number %s" (string_of_rnum c);
           same "root: (result)^n vs operand" (some (rv_pow chain fuel c (nat_of_int e))) x;
+          if ai 2 <> k then sync "root: operand after" cf.(1) (ai 2);
           pool.(k) <- Some c
         end
       | "copy" ->
@@ -224,14 +236,14 @@ let run_case (toks : string list) (cout : string list) : string =
       | "refine" ->
         let i = ai 1 in
         operand_is op cf.(0) i;
-        same "refine: refined operand" (check_struct cf.(1)) (get i);
+        sync "refine: refined operand" cf.(1) i;
         exact "refine" (an_refine (anum_of_token cf.(0))) cf.(1)
       | "sgn" ->
         let i = ai 1 in
         operand_is op cf.(0) i;
         let s = int_of_string cf.(1) in
         if s <> sgi (rn_sgn (get i)) then fail "sgn = %d, exact sign %d" s (sgi (rn_sgn (get i)));
-        same "sgn: refined operand" (check_struct cf.(2)) (get i);
+        sync "sgn: refined operand" cf.(2) i;
         (match an_sgn fuel (anum_of_token cf.(0)) with
          | Some (c, a') -> if sgi c <> s then fail "sgn: model of the algorithm gives %d" (sgi c); exact "sgn (operand after)" a' cf.(2)
          | None -> raise Fuel)
@@ -241,8 +253,8 @@ let run_case (toks : string list) (cout : string list) : string =
         let s = int_of_string cf.(2) in
         let e = sgi (some (rv_cmp chain fuel (get i) (get j))) in
         if s <> e then fail "cmp = %d, exact comparison %d" s e;
-        same "cmp: first operand after" (check_struct cf.(3)) (get i);
-        same "cmp: second operand after" (check_struct cf.(4)) (get j);
+        sync "cmp: first operand after" cf.(3) i;
+        sync "cmp: second operand after" cf.(4) j;
         if i <> j then
           (match an_cmp fuel gcdf (anum_of_token cf.(0)) (anum_of_token cf.(1)) with
            | Some ((c, a'), b') ->
@@ -260,7 +272,7 @@ let run_case (toks : string list) (cout : string list) : string =
           | _ -> let q = rat_of_string cf.(1) in (q, an_cmp_rational fuel a q)) in
         let e = sgi (rn_cmp_q (get i) q) in
         if s <> e then fail "%s with %s = %d, exact comparison %d" op cf.(1) s e;
-        same (op ^ ": refined operand") (check_struct cf.(3)) (get i);
+        sync (op ^ ": refined operand") cf.(3) i;
         (match mres with
          | Some (c, a') -> if sgi c <> s then fail "%s: model of the algorithm gives %d" op (sgi c); exact (op ^ " (operand after)") a' cf.(3)
          | None -> raise Fuel)
